@@ -1,0 +1,7 @@
+//go:build !verif
+// +build !verif
+
+package config
+
+// verifNetTimeout is only settable in verification builds.
+const verifNetTimeout = 0
